@@ -1,5 +1,5 @@
 SPECIFICATION GenSpec
-CONSTANTS MaxOps = 4 TouchMem = 1
+CONSTANTS MaxOps = 4 RawOps = 4 TouchMem = 1
   Shapes <- FileShapesQ
   Datas <- DatasFileQ
   Ks <- KsQ
